@@ -202,6 +202,8 @@ def fixtures(rng):
         'frame_ih': f3,
         'frame_he': sf.FrameHE.from_records([[1, 2], [3, 4]], columns=('a', 'b')),
         'frame_empty': sf.Frame(index=('x',)),
+        'series_auto': sf.Series([4, 5, 6, 7]),          # automatic (map-less) indices: labels are positions
+        'frame_auto': sf.Frame(np.arange(6).reshape(3, 2)),
         'index': sf.Index(('a', 'b', 'c'), name='ix'),
         'index_int': sf.Index(range(4)),
         'index_date': sf.IndexDate(('2020-01-01', '2020-02-01')),
@@ -308,6 +310,16 @@ def sweep(ctx, max_calls):
                 pass
         if grown:
             ctx.count('V_results_grown', grown)
+        # pickle / deepcopy round trips of the target and of some containers handed out: what comes back is read-only as well
+        # (every array of it, the positions of an index that never built a label map included)
+        trips = [obj] + [r for r in _flatten_results(results) if isinstance(r, (sf.Series, sf.Frame, P.IndexBase)) and ctx.rng.random() < 0.3][:4]
+        for r in trips:
+            try:
+                results.append(pickle.loads(pickle.dumps(r)))
+                results.append(copy.deepcopy(r))
+                ctx.count('V_round_trips', 2)
+            except Exception:
+                pass
         arrays = []
         for r in results:
             arrays += reachable_arrays(r)
